@@ -262,6 +262,25 @@ fn check_locked(rounds: u64, out: &mut MsOut) {
         out.stats.eval("C08", mix(&[980, i % 7])); out.stats.eval("C08", mix(&[981, i % 5]));
         out.stats.count("c08_measured_while_locked_elsewhere");
         if hm != wm { viol(out, "C08", "law:Mutex-locked-elsewhere", format!("Mutex<String> measured while another thread held the lock: heap_size() = {}, its content holds {}", hm, wm)); }
+        // a poisoned lock still owns its contents: the estimate may refuse to answer (the library unwraps the lock result and
+        // panics, which is outside what C08/C09 quantify over) but if it answers, the answer must be the contents' size
+        if i % 3 == 0 {
+            let pm = Arc::new(Mutex::new(String::with_capacity(cap)));
+            let prw = Arc::new(RwLock::new(vec![0u64; 3 + i as usize % 4]));
+            let (a, b) = (pm.clone(), prw.clone());
+            let _ = std::thread::spawn(move || { let _g1 = a.lock().unwrap(); let _g2 = b.write().unwrap(); panic!("poisoning the locks on purpose"); }).join();
+            let want_m = pm.lock().unwrap_or_else(|e| e.into_inner()).capacity() as u128;
+            let want_rw = { let g = prw.read().unwrap_or_else(|e| e.into_inner()); (g.capacity() * 8) as u128 };
+            out.stats.count("c08_poisoned_locks_measured");
+            match std::panic::catch_unwind(std::panic::AssertUnwindSafe(|| pm.heap_size())) {
+                Ok(h) => if h as u128 != want_m { viol(out, "C09", "alloc:Mutex-poisoned", format!("poisoned Mutex<String>: heap_size() = {}, the value still holds {} bytes", h, want_m)); viol(out, "C08", "law:Mutex-poisoned", format!("poisoned Mutex<String>: heap_size() = {}, its content holds {}", h, want_m)); },
+                Err(_) => out.stats.count("c08_poisoned_lock_refused_to_answer"),
+            }
+            match std::panic::catch_unwind(std::panic::AssertUnwindSafe(|| prw.heap_size())) {
+                Ok(h) => if h as u128 != want_rw { viol(out, "C09", "alloc:RwLock-poisoned", format!("poisoned RwLock<Vec<u64>>: heap_size() = {}, the value still holds {} bytes", h, want_rw)); viol(out, "C08", "law:RwLock-poisoned", format!("poisoned RwLock<Vec<u64>>: heap_size() = {}, its content holds {}", h, want_rw)); },
+                Err(_) => out.stats.count("c08_poisoned_lock_refused_to_answer"),
+            }
+        }
         if hrw != wrw { viol(out, "C08", "law:RwLock-locked-elsewhere", format!("RwLock<Vec<u64>> measured while another thread held the write lock: heap_size() = {}, its content holds {}", hrw, wrw)); }
     }
 }
